@@ -342,8 +342,12 @@ class FileManager:
         try:
             manifest_data = json.loads(content.decode("utf-8"))
 
+            # A legacy JSON manifest is an object WITH a "files" list. Defaulting
+            # a missing key to [] would read any other JSON object (e.g. "{}" or
+            # a metadata file copied over the manifest) as an EMPTY manifest and
+            # silently drop its rows instead of failing closed.
             data_files = []
-            for file_entry in manifest_data.get("files", []):
+            for file_entry in manifest_data["files"]:
                 data_file = DataFile(
                     file_path=file_entry["file_path"],
                     file_format=FileFormat(file_entry["file_format"]),
@@ -456,8 +460,10 @@ class FileManager:
         try:
             list_data = json.loads(content.decode("utf-8"))
 
+            # As above: a JSON object without "manifests" is not a manifest list;
+            # reading it as an empty one reports a broken table as an empty table.
             manifest_files = []
-            for manifest_entry in list_data.get("manifests", []):
+            for manifest_entry in list_data["manifests"]:
                 manifest_file = ManifestFile(
                     manifest_path=manifest_entry["manifest_path"],
                     manifest_length=manifest_entry["manifest_length"],
